@@ -2,8 +2,8 @@ package rules
 
 func init() {
 	reg("C05", &PropSpec{
-		Rules:       []Rule{r("W1", RuleW1), r("W2", RuleW2), r("W3", RuleS1("W3")), r("K2p", RuleK2p), r("Q2", RuleQ2)},
-		Explanation: "Decided on the extracted scanner automaton for all inputs: in each of the 160 states LF and CR take exactly the same arms and so do space and tab (W1: a state that told them apart would behave differently under LF/CR/CRLF or indentation rewriting); the comment sub-machine entered by startComment emits no lexeme event, moves no index, pushes nothing, accepts every byte, and leaves only by popping the frame that startComment pushed - line comments re-dispatch the terminating line end to the interrupted state, block comments do not (W2: comment transparency); in every reachable configuration at the start of a line outside lexemes and comments, a blank or a further line end is not an error arm (W3: blank lines and indentation cannot turn an accepted document into a rejected one at the scanner level). Not decided: the positions at which the grammar admits a comment, blank-line idempotence as a bisimulation, parenthesis equivalence (C06), quoting (C17). The description look-ahead treats LF/CR and space/tab alike and sees every keyword (K2p); Unquote precedes every other end-sensitive transformation of a parameter value (Q2).",
+		Rules:       []Rule{r("W1", RuleW1), r("W2", RuleW2), r("W3", RuleS1("W3")), r("K2p", RuleK2p), r("Q2", RuleQ2), r("CX1", RuleCX1)},
+		Explanation: "Decided on the extracted scanner automaton for all inputs: in each of the 160 states LF and CR take exactly the same arms and so do space and tab (W1: a state that told them apart would behave differently under LF/CR/CRLF or indentation rewriting); the comment sub-machine entered by startComment emits no lexeme event, moves no index, pushes nothing, accepts every byte, and leaves only by popping the frame that startComment pushed - line comments re-dispatch the terminating line end to the interrupted state, block comments do not (W2: comment transparency); in every reachable configuration at the start of a line outside lexemes and comments, a blank or a further line end is not an error arm (W3: blank lines and indentation cannot turn an accepted document into a rejected one at the scanner level). Not decided: the positions at which the grammar admits a comment, blank-line idempotence as a bisimulation, parenthesis equivalence (C06), quoting (C17). The description look-ahead treats LF/CR and space/tab alike and sees every keyword (K2p); Unquote precedes every other end-sensitive transformation of a parameter value (Q2). The handler of the opening parenthesis refuses no directive kind that can have children (CX1: evaluated per kind).",
 		Trusted:     trustedCommon,
 	})
 	reg("C17", &PropSpec{
